@@ -8,23 +8,31 @@
 From NG Require Import Common.Tactics Exec.CallTree.
 Open Scope N_scope.
 
-Record istate := mkI { ist : store; ifee : N; intf : list event; iexc : bool }.
+Record istate := mkI { ist : store; ifee : N; ivc : N; intf : list event; iexc : bool }.
 Inductive ires := INormal (s : istate) | IThrown (s : istate) | IFault.
 
-Definition iput (s : istate) (k : key) (v : option N) : istate := mkI ((k, v) :: ist s) (ifee s) (intf s) (iexc s).
-Definition iadd (s : istate) (e : event) : istate := mkI (ist s) (ifee s) (intf s ++ [e]) (iexc s).
-Definition iset_exc (s : istate) (b : bool) : istate := mkI (ist s) (ifee s) (intf s) b.
+Definition iput (s : istate) (k : key) (v : option N) : istate := mkI ((k, v) :: ist s) (ifee s) (ivc s) (intf s) (iexc s).
+Definition iadd (s : istate) (e : event) : istate := mkI (ist s) (ifee s) (ivc s) (intf s ++ [e]) (iexc s).
+Definition iset_exc (s : istate) (b : bool) : istate := mkI (ist s) (ifee s) (ivc s) (intf s) b.
 Definition ibal (s : istate) (a : N) : N := dflt (lookup (GASNS, a) (ist s)).
 Definition iset_bal (a v : N) (s : istate) : istate := iput s (GASNS, a) (if v =? 0 then None else Some v).
 (* roll a failed frame back: everything but the pending exception *)
-Definition rollback (at_call : istate) : istate := mkI (ist at_call) (ifee at_call) (intf at_call) true.
+Definition rollback (at_call : istate) : istate := mkI (ist at_call) (ifee at_call) (ivc at_call) (intf at_call) true.
 
 Definition imove (cid to amt : N) (s : istate) : istate :=
   let bf := ibal s cid in
   let s2 := if (cid =? to) || (amt =? 0) then s
             else let s' := iset_bal cid (bf - amt) s in iset_bal to (ibal s' to + amt) s' in
   iadd s2 (EvT cid to amt).
-Definition isetfee (v : N) (s : istate) : istate := mkI ((POLNS, 0, Some v) :: ist s) v (intf s) (iexc s).
+Definition isetfee (v : N) (s : istate) : istate := mkI ((POLNS, 0, Some v) :: ist s) v (ivc s) (intf s) (iexc s).
+(* NEO.transfer and the GAS mints: the same storage effects (CallTree.neo_eff, mint_eff), on the one store *)
+Definition ieff (e : eff) (s : istate) : istate := mkI (e (ist s) ++ ist s) (ifee s) (ivc s) (intf s) (iexc s).
+Definition ineo (cid to amt : N) (s : istate) : istate :=
+  let s2 := ieff (neo_eff cid to amt) s in
+  let s3 := if (cid =? to) || (amt =? 0) then s2 else mkI (ist s2) (ifee s2) 1 (intf s2) (iexc s2) in
+  iadd s3 (EvTN cid to amt).
+Definition imint (a d : N) (s : istate) : istate :=
+  if d =? 0 then s else iadd (ieff (mint_eff a d) s) (EvT NIL a d).
 
 (* NeoVM try/catch/finally for one try block (same control rules as the machine) *)
 Definition ifin_of (rf : option (istate -> ires)) (normal_entry : bool) (s0 : istate) : ires :=
@@ -77,6 +85,19 @@ Fixpoint iexec (p : prog) (cid fl : N) (s : istate) {struct p} : ires :=
             end
           else INormal s3
       else IFault
+  | MoveNeo to amt cb =>
+      if has fl fAll then
+        if sval (ist s) (kNeo cid) <? amt then INormal s
+        else
+          let d1 := sval (ist s) (kClaim cid) in
+          let d2 := neo_d2 cid to amt (ist s) in
+          let s3 := ineo cid to amt s in
+          match (if is_contract to then iexec cb to fAll s3 else INormal s3) with
+          | INormal s4 => INormal (imint to d2 (imint cid d1 s4))
+          | IThrown _ => IFault
+          | IFault => IFault
+          end
+      else IFault
   | Seq p q =>
       match iexec p cid fl s with
       | INormal s1 => iexec q cid fl s1
@@ -98,7 +119,7 @@ Fixpoint iexec (p : prog) (cid fl : N) (s : istate) {struct p} : ires :=
 
 (* a transaction on block-level state: applied iff it halts *)
 Record iout := mkIOut { ihalted : bool; iafter : istate }.
-Definition istart (base : layer) : istate := mkI (lst base) (dflt (lnc base)) [] false.
+Definition istart (base : layer) : istate := mkI (lst base) (dflt (lnc base)) (dflt (lvc base)) [] false.
 Definition irun_tx (base : layer) (p : prog) : iout :=
   match iexec p ENTRY fAll (istart base) with
   | INormal s' => mkIOut true s'
